@@ -171,6 +171,18 @@ Fixpoint norm_top (top : option Z) (links : list glink) : option Z * list glink 
 Definition form_is_dmrs (t : dtok) : bool :=
   match t with DSYM s => str_eqb s DMRS_W | DDQ s => str_eqb s DMRS_W | _ => false end.
 
+Definition dec_attrs (ts2 : list dtok) : option (lnk * option str * option str * option str * list dtok) :=
+  match ts2 with
+  | DLBRK :: r0 =>
+      let '(lk, r1) := ddec_lnk r0 in
+      let '(surf, r2) := match r1 with DDQ raw :: r => (Some (unescape raw), r) | _ => (None, r1) end in
+      match dec_nprops r2 [] with
+      | Some (gp, r3) => Some (lk, surf, dict_get TOP_UC gp, dict_get INDEX_UC gp, r3)
+      | None => None
+      end
+  | _ => Some (LNone, None, None, None, ts2)
+  end.
+
 Definition dec_dmrs (ts : list dtok) : option (dmrs * list dtok) :=
   match ts with
   | t0 :: ts0 =>
@@ -178,16 +190,7 @@ Definition dec_dmrs (ts : list dtok) : option (dmrs * list dtok) :=
         let '(ident, ts1) := match ts0 with DSYM i :: r => (Some i, r) | _ => (None, ts0) end in
         match ts1 with
         | DLBRACE :: ts2 =>
-            match (match ts2 with
-                   | DLBRK :: r0 =>
-                       let '(lk, r1) := ddec_lnk r0 in
-                       let '(surf, r2) := match r1 with DDQ raw :: r => (Some (unescape raw), r) | _ => (None, r1) end in
-                       match dec_nprops r2 [] with
-                       | Some (gp, r3) => Some (lk, surf, dict_get TOP_UC gp, dict_get INDEX_UC gp, r3)
-                       | None => None
-                       end
-                   | _ => Some (LNone, None, None, None, ts2)
-                   end) with
+            match dec_attrs ts2 with
             | Some (lk, surf, top, index, ts3) =>
                 match dec_items (S (length ts3)) ts3 [] [] with
                 | Some (nodes, links, ts4) =>
